@@ -91,9 +91,11 @@ theorem step_conserves (s s' : State) (e : Ev) (h : step s e = .ok s') :
     · rename_i x hx
       split at h
       · cases h
-      · have := check_ok h; subst this
-        simp only [V, sumProcs_set _ _ _ _ hx, contrib]
-        omega
+      · split at h
+        · cases h
+        · have := check_ok h; subst this
+          simp only [V, sumProcs_set _ _ _ _ hx, contrib]
+          omega
   | cheat p n my cheats =>
     simp only [withProc] at h
     split at h
@@ -264,6 +266,27 @@ theorem exit_without_token_rejected :
     (match run {} [.setupOwn 1 2, .create 1 1 2 0, .release 1 1 1 1 0, .destroy 1 1 0 0, .start 1 10 0 0,
                    .setupInh 2 10, .release 2 1 1 0 0, .forcereturn 2 0, .returned 2 0 0] with
      | .error (0, .guard _ 2) => true
+     | _ => false) = true := by decide
+
+/-- Witness for the repaired defect `cheaterEatsForeignIou` (side observation of seeding round 6): a process that
+synthesised a token (`cheat`), gave it to a child, and at the child's exit takes an IOU somebody else left on the cheat
+pipe — instead of settling its own cheat with the child's token — is rejected at that step: it would be left with
+`(my_tokens, cheats) = (0, 1)`, which the exit path of the pinned code answered with an assertion failure. -/
+theorem foreign_iou_with_own_cheat_rejected :
+    (match run {} [.setupOwn 1 2, .create 1 1 2 0, .release 1 1 1 1 0, .destroy 1 1 0 0, .start 1 10 0 0,
+                   .setupInh 2 10, .release 2 1 1 0 0, .cheat 2 1 1 1, .destroy 2 1 0 1, .start 2 20 0 1,
+                   .cheatwrite 1 1, .childexit 2 20 0 1, .eat 2 0 1] with
+     | .error (0, .guard _ 2) => true
+     | _ => false) = true := by decide
+
+/-- The repaired order on the same prefix is accepted: the child's token settles the cheat (`create` with the cheat
+cancelled), the process leaves with `(0, 0)` and one IOU of its own, and its job gets its token back. -/
+theorem own_cheat_settled_first_accepted :
+    (match run {} [.setupOwn 1 2, .create 1 1 2 0, .release 1 1 1 1 0, .destroy 1 1 0 0, .start 1 10 0 0,
+                   .setupInh 2 10, .release 2 1 1 0 0, .cheat 2 1 1 1, .destroy 2 1 0 1, .start 2 20 0 1,
+                   .cheatwrite 1 1, .childexit 2 20 0 1, .create 2 1 0 0, .forcereturn 2 0, .cheatwrite 2 1,
+                   .returned 2 0 0] with
+     | .ok s => s.procs.length == 1 && s.cheatPipe == 2
      | _ => false) = true := by decide
 
 end C08
